@@ -700,3 +700,8 @@ PROPS["C15"]["required_theorems"] += ["Failsafe.Props.C15." + t for t in ["accep
 
 # C15's last clause names the hedge policy: the coordinating loop's cancellation check is one of the facts it rests on (round 9)
 PROPS["C15"]["facts"] = PROPS["C15"]["facts"] + ["bodies/hedgeexecutor:executor.Apply", "effects/hedgeexecutor:executor.Apply", "bodies/retryexecutor:executor.Apply"]
+
+# the adapters' end-to-end scenarios of the census (retried responses with stalled bodies, hedge around retry, caller giving up) also decide C18's
+# "a retryable response is retried / the returned response is the last attempt's" under awkward server behaviour (round 9: a bounded drain of the
+# retried response before closing it)
+PROPS["C18"]["runners"] = PROPS["C18"].get("runners", []) + [stress_runner("adapterleaks", "an HTTP call through the adapter did not retry a retryable response (or waited for the body of the response it was about to discard), or returned something other than its last attempt's response", confirm=2)]
